@@ -41,7 +41,7 @@ def is_wsdl_qs(qs):
     return qs.split('=')[0].lower() == 'wsdl'
 
 
-EXT_ALL = ('dt', 'date', 'dec')   # kinds drawn for the extended signatures (dt, date are modelled: shared leaf codec)       # leaf kinds beyond the model: exercised by T3 only (as arguments), dt also as out-header
+EXT_ALL = ('dt', 'date', 'dec', 'bytes')   # kinds drawn for the extended signatures (dt, date are modelled: shared leaf codec)       # leaf kinds beyond the model: exercised by T3 only (as arguments), dt also as out-header
 
 
 def native_leaf(v):
@@ -66,6 +66,8 @@ def native_leaf(v):
         return v['b']
     if 'i' in v:
         return int(v['i'])
+    if 'x' in v:
+        return [bytes(v['x'])]
     return uncps(v['s'])
 
 
@@ -88,6 +90,10 @@ def val_of_native(x):
         return {'date': [x.year, x.month, x.day]}
     if isinstance(x, Decimal):
         return {'dec': format(x, 'f')}
+    if isinstance(x, (list, tuple)) and all(isinstance(c, bytes) for c in x):
+        return {'x': list(b''.join(x))}
+    if isinstance(x, bytes):
+        return {'x': list(x)}
     return {'?': repr(x)}
 
 
@@ -111,9 +117,9 @@ class Impl:
     _prims = {}
     _subs = {}
 
-    def __init__(self, fields, cfg=None, ret=None, hdr_fields=None):
+    def __init__(self, fields, cfg=None, ret=None, hdr_fields=None, opts=None):
         from spyne import Application, Service, rpc, ComplexModel, Array, Integer, Unicode, Boolean, ByteArray, \
-            DateTime, Date, Decimal
+            DateTime, Date, Decimal, Fault
         from spyne.model.complex import ComplexModelMeta
         from spyne.protocol.http import HttpRpc
         from spyne.server.wsgi import WsgiApplication
@@ -130,34 +136,66 @@ class Impl:
         self.retval = None
         self.out_header = None
         impl = self
+        self.opts = opts = opts or {}
+        style = opts.get('style', 'plain')      # how the user function hands its result over
 
         def f(ctx, *a):
             got['args'] = a
+            got['in_header'] = ctx.in_header
             if impl.out_header is not None:
-                ctx.out_header = impl.out_header
+                ctx.out_header = [impl.out_header] if opts.get('hdr_as_list') else impl.out_header
+            if style == 'fault':
+                raise Fault('Client.Custom', 'nope')
+            if style == 'two':
+                return impl.retval, u'x'
+            return impl.retval
+
+        def fgen(ctx, *a):
+            got['args'] = a
+            if opts.get('gen_fault') == 'first':
+                raise Fault('Client.Custom', 'nope')
+            for i, c in enumerate(impl.retval):
+                yield c
+                if opts.get('gen_fault') == 'later':
+                    raise Fault('Client.Custom', 'nope')
+        def fbare(ctx, it):
+            got['args'] = (it,)
             return impl.retval
         kw = {'_args': names}
-        if ret is not None:
-            kw['_returns'] = self.P[ret]
+        if opts.get('bare'):
+            kw = {'_body_style': 'bare'}
+        if ret is not None and style != 'none':
+            kw['_returns'] = (self.P[ret], Unicode) if style == 'two' else self.P[ret]
+        self.in_hdr_cls = None
+        if opts.get('in_hdr'):
+            self.in_hdr_cls = self.Meta('ReqHeader', (ComplexModel,), {
+                '_type_info': [(py_of(h), self.type_of(h)) for h in opts['in_hdr']], '__namespace__': 'tns'})
         self.hdr_cls = None
         if hdr_fields:
             self.hdr_cls = self.Meta('RespHeader', (ComplexModel,), {
                 '_type_info': [(uncps(h['n']), self.type_of(h)) for h in hdr_fields], '__namespace__': 'tns'})
             kw['_out_header'] = self.hdr_cls
-        dec = rpc(*types, **kw)(f)
-        Svc = type(Service)('Svc', (Service,), {'f': dec})
-        self.app = Application([Svc], 'tns', out_protocol=HttpRpc(),
+        dec = rpc(*types, **kw)(fgen if style == 'gen' else fbare if opts.get('bare') else f)
+        sattrs = {'f': dec}
+        if self.in_hdr_cls is not None:
+            sattrs['__in_header__'] = self.in_hdr_cls
+        Svc = type(Service)('Svc', (Service,), sattrs)
+        self.app = Application([Svc], 'tns', out_protocol=HttpRpc(ignore_uncap=bool(opts.get('ignore_uncap'))),
                                in_protocol=HttpRpc(validator='soft' if cfg['soft'] else None,
+                                                   parse_cookie=opts.get('parse_cookie', True),
                                                    strict_arrays=cfg['strict'], hier_delim=uncps(cfg['delim'])))
-        self.wsgi = WsgiApplication(self.app)
+        self.wsgi = WsgiApplication(self.app, chunked=opts.get('chunked', True))
         self.in_message = Svc.public_methods['f'].in_message
 
     # -- types
     def cls_of(self, t):
         c = self.classes.get(('base', t['cid']))
         if c is None:
-            c = self.Meta('K%d' % t['cid'], (self.ComplexModel,), {
-                '_type_info': [(py_of(f), self.type_of(f)) for f in t['fields']], '__namespace__': 'tns'})
+            own = t['fields'][-t['nown']:] if 'base' in t else t['fields']
+            d = {'_type_info': [(py_of(f), self.type_of(f)) for f in own], '__namespace__': 'tns'}
+            if t.get('nofreq'):
+                d['Attributes'] = type('Attributes', (self.ComplexModel.Attributes,), {'validate_freq': False})
+            c = self.Meta('K%d' % t['cid'], (self.cls_of(t['base']) if 'base' in t else self.ComplexModel,), d)
             self.classes[('base', t['cid'])] = c
         return c
 
@@ -178,8 +216,15 @@ class Impl:
         if t['k'] != 'obj':
             # customised primitives are shared by all signatures of a run (spyne keeps every variant of a
             # type in per-class registries; thousands of throw-away variants make customize() slow)
-            pkey = (t['k'], t.get('kind'), f['many'], f.get('wrap'), f['min'], f['max'], f.get('nillable', True))
+            pkey = (t['k'], t.get('kind'), f['many'], f.get('wrap'), f['min'], f['max'], f.get('nillable', True),
+                    core.canon(f.get('dflt')), f.get('ro'), f.get('dfac'))
             nil = {} if f.get('nillable', True) else {'nillable': False}
+            if f.get('dflt') is not None and f.get('dfac'):
+                nil['default_factory'] = (lambda v=native_leaf(f['dflt']): v)
+            elif f.get('dflt') is not None:
+                nil['default'] = native_leaf(f['dflt'])
+            if f.get('ro'):
+                nil['read_only'] = True
             c = Impl._prims.get(pkey)
             if c is None:
                 base = self.P[t['k']]
@@ -233,7 +278,7 @@ class Impl:
         return {'o': [[f['n'], self.to_val(a, f['many'], f['t'])] for f, a in zip(self.fields, args)]}
 
     # -- operations
-    def get(self, qs, method='GET'):
+    def get(self, qs, method='GET', env_extra=None):
         """a real WSGI request; canonical outcome + (status, headers, body)"""
         self.got.clear()
         st = {}
@@ -242,6 +287,8 @@ class Impl:
             st['status'], st['headers'] = status, headers
         env = {'QUERY_STRING': qs, 'PATH_INFO': '/f', 'REQUEST_METHOD': method, 'SERVER_NAME': 'localhost',
                'SERVER_PORT': '80', 'wsgi.url_scheme': 'http', 'SCRIPT_NAME': ''}
+        if env_extra:
+            env.update(env_extra)
         try:
             body = b''.join(self.wsgi(env, sr))
         except Exception as e:
@@ -279,13 +326,21 @@ class Impl:
         d = self.app.in_protocol.object_to_simple_dict(self.in_message, inst)
         out = []
         for k, v in d.items():
-            if isinstance(v, list):
+            if isinstance(v, list) and self.key_many(k):
                 out.append([cps(k), {'many': [self.leaf_val(x) for x in v]}])
             elif v == 'empty' and self.is_complex_key(k):
                 out.append([cps(k), 'empty'])
             else:
                 out.append([cps(k), {'one': self.leaf_val(v)}])
         return out, d
+
+    def key_many(self, k):
+        """does the flat key denote a member that holds a list (so that a list value is a list of leaves)?"""
+        from spyne.protocol.dictdoc.simple import RE_HTTP_ARRAY_INDEX
+        sti = self.in_message.get_simple_type_info_with_prot(self.in_message, self.app.in_protocol,
+                                                             hier_delim=self.app.in_protocol.hier_delim)
+        m = sti.get(RE_HTTP_ARRAY_INDEX.sub('', k))
+        return m is None or m.type.Attributes.max_occurs > 1
 
     def is_complex_key(self, k):
         from spyne.protocol.dictdoc.simple import RE_HTTP_ARRAY_INDEX
@@ -325,13 +380,13 @@ class Impl:
         return out
 
 
-def get_impl(fields, cfg=None, ret=None, hdr_fields=None):
-    key = core.canon([fields, cfg, ret, hdr_fields])
+def get_impl(fields, cfg=None, ret=None, hdr_fields=None, opts=None):
+    key = core.canon([fields, cfg, ret, hdr_fields, opts])
     i = Impl._cache.get(key)
     if i is None:
         if len(Impl._cache) > 400:
             Impl._cache.clear()
-        i = Impl._cache[key] = Impl(fields, cfg, ret, hdr_fields)
+        i = Impl._cache[key] = Impl(fields, cfg, ret, hdr_fields, opts)
     return i
 
 
@@ -378,6 +433,10 @@ def decl_fields(fields):
              't': ty(f['t'])}
         if 'py' in f:
             d['py'] = f['py']
+        if f.get('dflt') is not None:
+            d['dflt'] = f['dflt']
+        if f.get('ro'):
+            d['ro'] = True
         return d
     return [mf(f) for f in fields]
 
@@ -444,20 +503,33 @@ class Gen:
                 out.append(fld(nm, t, many, wrap, 0, mx))
             else:
                 kind = rng.choice(EXT_ALL) if (self.ext and rng.random() < 0.4) else rng.choice(PRIMS)
+                pt = {'k': 'bytes', 'enc': 'urlsafe'} if kind == 'bytes' else P(kind)
                 many = rng.random() < 0.3
                 wrap = rng.choice(['array', 'occurs']) if many else None
                 mx = rng.choice([None, 2, 5, 20]) if wrap == 'occurs' else None
                 mn = 1 if (not many and rng.random() < 0.12) else 0
-                out.append(fld(nm, P(kind), many, wrap, mn, mx))
+                out.append(fld(nm, pt, many, wrap, mn, mx))
         for f in out:       # members that go by a sub_name (at every depth, objects and arrays included)
             if rng.random() < 0.2:
                 f['py'] = cps('py_' + uncps(f['n']) + rng.choice(['', '_', 'x']))
         return out
 
     def new_class(self, depth):
+        rng = self.rng
         cid = self.next_cid
         self.next_cid += 1
-        t = obj(cid, self.fields(depth))
+        t = None
+        if self.pool and rng.random() < 0.15:
+            # a class that extends another: the inherited members come first in the flat type info
+            base = rng.choice(self.pool)
+            if self._depth(base) <= depth and 'base' not in base:
+                names = set(core.canon(f['n']) for f in base['fields']) | set(core.canon(f.get('py')) for f in base['fields'])
+                own = [f for f in self.fields(depth, n=rng.choice([1, 2]))
+                       if core.canon(f['n']) not in names and core.canon(f.get('py')) not in names]
+                if own:
+                    t = {'k': 'obj', 'cid': cid, 'fields': list(base['fields']) + own, 'base': base, 'nown': len(own)}
+        if t is None:
+            t = obj(cid, self.fields(depth))
         self.pool.append(t)
         return t
 
@@ -473,6 +545,8 @@ class Gen:
                                          rng.randrange(-10 ** 6, 10 ** 6), rng.getrandbits(80)]))}
         if kind == 'bool':
             return {'b': rng.random() < 0.5}
+        if kind == 'bytes':
+            return {'x': [rng.randrange(256) for _ in range(rng.choice([0, 1, 2, 3, 4, 7, 30]))]}
         if kind in ('dt', 'date'):
             import datetime as pydt
             d = pydt.date.fromordinal(rng.choice([rng.randrange(693596, 767010), 734869, 734868, 737484, 737485, 730120]))
@@ -547,6 +621,9 @@ def leaf_text(v):
         return v['i']
     if 'b' in v:
         return 'true' if v['b'] else 'false'
+    if 'x' in v:
+        import base64
+        return base64.urlsafe_b64encode(bytes(v['x'])).decode('ascii')
     return uncps(v['s'])
 
 
@@ -826,8 +903,18 @@ def feature_of(fields, val_pairs, cfg):
     return 'other'
 
 
+def own_known(ctx):
+    """known findings of this property that are staged in fixes/C03-known.json (merged into known_findings.json by main)"""
+    import json, os
+    p = os.path.join(core.VERIF, 'fixes', 'C03-known.json')
+    if os.path.exists(p):
+        have = set(k.get('id') for k in ctx.known_findings)
+        ctx.known_findings += [k for k in json.load(open(p)) if k.get('property') == ctx.prop and k.get('id') not in have]
+
+
 def run(ctx):
     rng = ctx.rng
+    own_known(ctx)
     # ---- T1
     from . import c08
     c08.refresh_facts(ctx)      # leaf switches -> Generated/Facts08.lean (Facts03 embeds them)
@@ -877,6 +964,12 @@ def run(ctx):
         run_signature(ctx, g, sig, add, f, model_ok)
     t3_wsdl(ctx, add)
     t3_history(ctx, add)
+    t3_defaults(ctx, add)
+    t3_bare(ctx, add)
+    t3_in_header(ctx, add)
+    t3_return_styles(ctx, add)
+    t3_conflict(ctx)
+    t3_novalidate(ctx)
     t2_returns(ctx, g, add)
     ctx.log('implementation side done: %d queries' % len(Q))
 
@@ -887,7 +980,7 @@ def run(ctx):
         if isinstance(mod, dict) and 'driver_error' in mod:
             raise core.Infra('driver error: %r on %r' % (mod, q))
         a, b = impl, mod
-        if q['op'] in ('flat.decode', 'http.get'):
+        if q['op'] in ('flat.decode', 'http.get', 'http.get.decl', 'hdr.in'):
             a, b = outcome_class(impl), outcome_class(mod)
         if q['op'] in ('flat.encode', 'sti', 'sti.decl'):
             b = sorted(mod)
@@ -960,6 +1053,8 @@ def run_signature(ctx, g, sig, add, facts, model_ok):
     ctx.hit('sig:delim=' + delim)
     if dup_cls:
         ctx.hit('sig:same-class-twice')
+    if has_feature(sig, lambda f: 'base' in f['t']):
+        ctx.hit('sig:inherited-members')
     ext = has_feature(sig, lambda f: f['t']['k'] in EXT)
     if ext:
         ctx.hit('sig:extended-leaf-kinds(T3 only)')
@@ -1022,7 +1117,7 @@ def run_signature(ctx, g, sig, add, facts, model_ok):
         doc = []
         for k, v in raw.items():
             kind = leaf_kind(sig, k, delim)
-            if isinstance(v, list):
+            if isinstance(v, list) and impl0.key_many(k):
                 if v:
                     doc.append([cps(k), [cps(impl0.text_of(kind, x)) for x in v]])
             elif v == 'empty' and impl0.is_complex_key(k):
@@ -1303,6 +1398,343 @@ def t3_history(ctx, add, c05=False):
                             'after a served request and %s_field(%r, %s) on the argument class, %r (outside the facets of '
                             'the new member) is not rejected by soft validation: %s' % (how, nk, kind or newt['k'], qs, core.canon(r)[:300]),
                             dict(hobj, qs=qs, good=False))
+
+
+def fill_defaults(fields, val):
+    """what the user function sees: members of a present object that no key assigns show their default; read-only
+    members are never assigned"""
+    if val is None:
+        return None
+    out = []
+    for (n, v), f in zip(val['o'], fields):
+        t = f['t']
+        if t['k'] != 'obj':
+            if f.get('ro') or v is None:
+                v = f.get('dflt') if not f['many'] else (None if f.get('ro') else v)
+        elif v is not None:
+            v = {'l': [fill_defaults(t['fields'], e) for e in v['l']]} if f['many'] else fill_defaults(t['fields'], v)
+        out.append([n, v])
+    return {'o': out}
+
+
+def decorate(rng, g, fields, p_dflt=0.35, p_ro=0.12):
+    """give scalar primitive members (at every depth) a default / make them read-only; fresh copies of the classes"""
+    import copy
+    fields = copy.deepcopy(fields)
+
+    def go(fs):
+        for f in fs:
+            t = f['t']
+            if t['k'] == 'obj':
+                t['cid'] += 5000        # a class of its own (the undecorated one may be cached)
+                t.pop('base', None)     # ... with all its members declared in it
+                t.pop('nown', None)
+                go(t['fields'])
+            elif not f['many'] and t['k'] in PRIMS:
+                if rng.random() < p_dflt:
+                    f['dflt'] = g.leaf(t['k'])
+                    f['dfac'] = rng.random() < 0.3
+                if rng.random() < p_ro:
+                    f['ro'] = True
+    go(fields)
+    return fields
+
+
+def t3_defaults(ctx, add):
+    """declared defaults and read-only members: the request is decoded as spelled, members the request does not mention show
+    their default (in the request class, in nested objects, in array elements, in `=empty` objects), read-only members
+    are never assigned"""
+    rng = ctx.rng
+    g = Gen(rng)
+    g.next_cid = 7000
+    for i in range(60 if ctx.thorough else 20):
+        g.pool = []
+        sig = decorate(rng, g, g.fields(rng.choice([1, 2, 2, 3]), top=True))
+        keys = sti_keys(sig, '.')
+        if len(set(keys)) != len(keys) or len(set(cids(sig))) != len(cids(sig)):
+            continue
+        ctx.hit('defaults:signature')
+        for vi in range(3):
+            val = g.value(sig, 4)
+            strict = rng.random() < 0.4
+            cfg = {'strict': strict, 'soft': False, 'delim': cps('.')}
+            pairs = spell(rng, sig, val, '.', sparse=(not strict) and rng.random() < 0.5)
+            qs = render_qs(rng, permute_pairs(rng, pairs), rng.choice([0, 3, 4]))
+            impl = get_impl(sig, cfg)
+            r, st, body = impl.get(qs)
+            add({'op': 'http.get.decl', 'cfg': cfg, 'fields': decl_fields(sig), 'qs': cps(qs)}, r)
+            ctx.cov['traces_validated_against_impl'] += 1
+            exp = {'wsdl': True} if is_wsdl_qs(qs) else {'ok': fill_defaults(sig, strip_marker(val))}
+            if r != exp:
+                ctx.hit('t3-fail:defaults')
+                ctx.finding('documented:defaults', 'query %r over a signature with defaults / read-only members: expected %s, got %s'
+                            % (qs[:200], core.canon(exp)[:300], core.canon(r)[:300]),
+                            {'op': 'documented', 'fields': sig, 'cfg': cfg, 'qs': qs, 'expected': exp.get('ok')})
+
+
+def t3_bare(ctx, add):
+    """`_body_style='bare'`: the argument class IS the request class, its members are the top-level keys"""
+    rng = ctx.rng
+    g = Gen(rng)
+    g.next_cid = 7500
+    for i in range(30 if ctx.thorough else 10):
+        g.pool = []
+        inner = g.fields(rng.choice([0, 1, 2]))
+        keys = sti_keys(inner, '.')
+        if len(set(keys)) != len(keys) or len(set(cids(inner))) != len(cids(inner)):
+            continue
+        sig = [fld('it', obj(g.next_cid + 400 + i, inner))]
+        for soft in (False, True):
+            cfg = {'strict': rng.random() < 0.5, 'soft': soft, 'delim': cps('.')}
+            impl = get_impl(sig, cfg, None, None, {'bare': True})
+            val = g.value(inner, 3, must=True)
+            if soft and not conforms(inner, val):
+                continue
+            qs = render_qs(rng, permute_pairs(rng, spell(rng, inner, val, '.')), rng.choice([0, 4]))
+            r, st, body = impl.get(qs)
+            ctx.hit('bare:request')
+            ctx.cov['traces_validated_against_impl'] += 1
+            got = {'ok': r['ok']['o'][0][1]} if 'ok' in r and r['ok']['o'][0][1] is not None else r
+            add({'op': 'http.get', 'cfg': cfg, 'fields': model_fields(inner), 'qs': cps(qs)}, got)
+            exp = {'wsdl': True} if is_wsdl_qs(qs) else {'ok': strip_marker(val)}
+            if got != exp:
+                ctx.hit('t3-fail:bare')
+                ctx.finding('documented:bare', "bare body style: query %r does not reach the user function as spelled: got %s"
+                            % (qs[:200], core.canon(r)[:300]),
+                            {'op': 'bare', 'fields': sig, 'cfg': cfg, 'qs': qs, 'expected': strip_marker(val)})
+
+
+def cookie_oracle(s):
+    """the documented reading of a Cookie header: browser-style splitting on ';' (first '=' separates name and value,
+    a chunk without '=' has the empty name), values unquoted by CPython's own http.cookies._unquote"""
+    from http.cookies import _unquote
+    out = {}
+    for chunk in s.split(';'):
+        k, v = chunk.split('=', 1) if '=' in chunk else ('', chunk)
+        k, v = k.strip(), v.strip()
+        if k or v:
+            out[k] = _unquote(v)
+    return out
+
+
+def t3_in_header(ctx, add):
+    """the declared in-header class is filled from the HTTP request headers (`HTTP_<NAME>` -> `<name>`), and from the
+    cookies of the Cookie header; absent headers leave None"""
+    rng = ctx.rng
+    S, I, B = P('str'), P('int'), P('bool')
+    pools = [[fld('x_count', I), fld('agent', S), fld('x_f', B, py='x_flag')],
+             [fld('sid', S), fld('x_count', I), fld('accept_language', S), fld('n', I, py='number')],
+             [fld('a', S), fld('b', S, False, None, 1), fld('wsdl', S)]]
+    words = ['abc', 'q"x;', 'a b', 'x=y', '0', 'wsdl', 'T\\351', '~', 'a,b', '']
+    for i in range(60 if ctx.thorough else 20):
+        hf = rng.choice(pools)
+        soft = rng.random() < 0.4
+        cfg = {'strict': False, 'soft': soft, 'delim': cps('.')}
+        impl = get_impl([fld('a', I)], cfg, None, None, {'in_hdr': hf})
+        env, envl, exp, cookies = {}, [], [], []
+        for h in hf:
+            k = h['t']['k']
+            v = None
+            if rng.random() < 0.7 or (soft and h['min'] > 0):
+                v = {'i': str(rng.randrange(-5, 300))} if k == 'int' else {'b': rng.random() < 0.5} if k == 'bool' else \
+                    {'s': cps(rng.choice(words[:8]))}
+                text = leaf_text(v)
+                if k == 'str' and rng.random() < 0.35 and text and not soft:
+                    cookies.append((uncps(h['n']), text))       # arrives as a cookie
+                else:
+                    env['HTTP_' + uncps(h['n']).upper()] = text
+                    envl.append([cps('HTTP_' + uncps(h['n']).upper()), cps(text)])
+            exp.append([h['n'], v])
+        if rng.random() < 0.5:
+            env['HTTP_X_UNRELATED'] = 'zzz'
+            envl.append([cps('HTTP_X_UNRELATED'), cps('zzz')])
+        if cookies:
+            def cq(v):
+                style = rng.choice(['raw', 'octal', 'backslash'])
+                if style == 'raw' and not any(c in ';,"\\ ' or ord(c) > 126 or ord(c) < 33 for c in v):
+                    return v
+                if style == 'backslash' and all(32 < ord(c) < 127 and c != ';' for c in v):
+                    return '"' + ''.join('\\' + c if c in '"\\' or rng.random() < 0.2 else c for c in v) + '"'
+                return '"' + ''.join('\\%03o' % ord(c) if c in ';,"\\' or ord(c) > 126 or ord(c) < 33 else c for c in v) + '"'
+            chunks = ['%s=%s' % (k, cq(v)) for k, v in cookies] + rng.sample(['flag', '', ' ', 'zz=1', 'q="', 'e=""', 'one=a'], 2)
+            rng.shuffle(chunks)
+            ck = rng.choice(['; ', ';', ' ;  ']).join(chunks)
+            env['HTTP_COOKIE'] = ck
+            orc = cookie_oracle(ck)
+            if any(orc.get(k) != v for k, v in cookies) or any(uncps(h['n']) in orc and uncps(h['n']) not in dict(cookies) for h in hf):
+                continue                                        # the oracle itself reads something else: not a case
+            ctx.hit('in-header:cookie')
+        r, st, body = impl.get('a=1', env_extra=env)
+        ctx.cov['traces_validated_against_impl'] += 1
+        ih = impl.got.get('in_header')
+        got = None if ih is None else {'o': [[h['n'], impl.to_val(getattr(ih, py_of(h), None), False, h['t'])] for h in hf]}
+        ctx.hit('in-header:request')
+        if not cookies:
+            add({'op': 'hdr.in', 'cfg': cfg, 'fields': model_fields(hf), 'env': envl},
+                {'ok': got} if 'ok' in r else r)
+        if 'ok' not in r or got != {'o': exp}:
+            ctx.hit('t3-fail:in-header')
+            ctx.finding('in-header', 'request headers %r: the in-header object is %s, expected %s (outcome %s)' % (
+                env, core.canon(got)[:300], core.canon({'o': exp})[:300], core.canon(r)[:100]),
+                {'op': 'in-header', 'hdr': hf, 'cfg': cfg, 'env': env, 'expected': {'o': exp}})
+
+
+def t3_return_styles(ctx, add):
+    """how a result is handed over: no return value, two return values, a generator, a Fault, the out-header given as a
+    list; `chunked` on and off: exact body, truthful Content-Length, status"""
+    rng = ctx.rng
+    sig = [fld('a', P('int'))]
+    hf = [fld('X-Count', P('int'))]
+    for i in range(54 if ctx.thorough else 18):
+        style = ['none', 'two', 'two-uncap', 'gen', 'fault', 'hdr-list', 'plain-none', 'gen-fault-first', 'gen-fault-later'][i % 9]
+        chunked = (i // 9) % 2 == 0
+        opts = {'chunked': chunked}
+        kind = 'str'
+        if style in ('none', 'fault', 'plain-none'):
+            opts['style'] = {'none': 'none', 'fault': 'fault', 'plain-none': 'plain'}[style]
+        elif style in ('two', 'two-uncap'):
+            opts['style'] = 'two'
+            opts['ignore_uncap'] = style == 'two-uncap'
+        elif style.startswith('gen'):
+            opts['style'], kind = 'gen', 'bytes'
+            if style != 'gen':
+                opts['gen_fault'] = style.split('-')[-1]
+        else:
+            opts['hdr_as_list'] = True
+        impl = get_impl(sig, None, kind, hf if style == 'hdr-list' else None, opts)
+        text = uncps(Gen(rng).leaf('str')['s'])
+        chunks = [bytes(rng.randrange(256) for _ in range(rng.choice([0, 1, 3]))) for _ in range(rng.choice([0, 1, 2, 3]))]
+        if style == 'gen-fault-later' and not chunks:
+            chunks = [b'x']
+        impl.retval = chunks if style.startswith('gen') else (None if style == 'plain-none' else text)
+        if style == 'hdr-list':
+            impl.out_header = impl.hdr_cls()
+            setattr(impl.out_header, 'X-Count', 7)
+        r, st, body = impl.get('a=1')
+        impl.retval, impl.out_header = None, None
+        hd = st.get('headers', [])
+        status = st.get('status', '')
+        ctx.hit('return-style:%s:chunked=%s' % (style, chunked))
+        ctx.cov['traces_validated_against_impl'] += 1
+        called = 'args' in impl.got
+        cl = [v for k, v in hd if k == 'Content-Length']
+        if style in ('none', 'two-uncap', 'plain-none'):
+            ok = status.startswith('200') and body == b'' and called and cl == ['0']
+        elif style == 'two':
+            ok = status.startswith('500') and called        # "HttpRpc protocol can only serialize functions with a single return type"
+        elif style == 'gen':
+            ok = status.startswith('200') and body == b''.join(chunks) and called and \
+                (cl == [str(len(body))] if not chunked else cl in ([], [str(len(body))]))
+        elif style == 'gen-fault-later' and chunked:
+            ok = status.startswith('200')       # streaming: the headers are out when the generator fails; the body is cut short
+        elif style in ('fault', 'gen-fault-first', 'gen-fault-later'):
+            ok = status.startswith('400') and body == b'Client.Custom\n\nnope' and cl == [str(len(body))]
+        else:
+            ok = status.startswith('200') and body == text.encode('utf8') and ('X-Count', '7') in hd and cl == [str(len(body))]
+        if not ok:
+            ctx.hit('t3-fail:return-style')
+            ctx.finding('return-style:' + style, 'result handed over as %r (chunked=%s): %r %r %r' % (style, chunked, status, hd, body[:80]),
+                        {'op': 'return-style', 'style': style, 'chunked': chunked})
+
+
+def t3_conflict(ctx):
+    """two members with the same flattened key: the member table refuses the signature loudly (ValueError), no request
+    is served with one member shadowing the other"""
+    I, S = P('int'), P('str')
+    cases = [([fld('ab', I), fld('a', obj(7801, [fld('b', I)]))], ''),
+             ([fld('a_b', S), fld('a', obj(7802, [fld('b', S)]))], '_'),
+             ([fld('a', obj(7803, [fld('b_c', I)])), fld('a_b', obj(7804, [fld('c', I)]))], '_'),
+             ([fld('x', I), fld('x', S, py='other')], '.')]
+    for sig, delim in cases:
+        cfg = {'strict': False, 'soft': False, 'delim': cps(delim or '.')}
+        if delim == '':
+            cfg['delim'] = cps('')
+        ctx.hit('conflict:signature')
+        try:
+            impl = Impl(sig, cfg)
+            impl.sti()
+            raised = None
+        except ValueError as e:
+            raised = str(e)
+        except Exception as e:
+            raised = None
+        k0 = sti_keys(sig, delim)[0]
+        try:
+            r, st, body = Impl(sig, cfg).get(k0 + '=1')
+        except Exception:
+            r = {'crash': 'exception'}
+        ctx.cov['traces_validated_against_impl'] += 1
+        if raised is None or 'conflicts' not in raised or 'ok' in r:
+            ctx.finding('key-conflict', 'signature with two members for one flattened key (hier_delim=%r): member table %s, '
+                        'request %r -> %s' % (delim, 'built silently' if raised is None else raised[:80], k0 + '=1', core.canon(r)[:200]),
+                        {'op': 'conflict', 'fields': sig, 'cfg': cfg})
+
+
+def conforms_nf(fields, val):
+    """`conforms`, with the occurrence checks switched off inside (and below) a class with validate_freq=False"""
+    for (n, v), f in zip(val['o'], fields):
+        if v is None:
+            if f['min'] > 0:
+                return False
+            continue
+        t = f['t']
+        if f['many']:
+            if f['max'] is not None and len(v['l']) > f['max']:
+                return False
+            if len(v['l']) < f['min']:
+                return False
+        if t['k'] == 'obj' and not t.get('nofreq'):
+            for e in (v['l'] if f['many'] else [v]):
+                if not conforms_nf(t['fields'], e):
+                    return False
+    return True
+
+
+def t3_novalidate(ctx):
+    """`validate_freq = False` on a class: soft validation does not count the members of its instances (nor of what is
+    below them); everywhere else min_occurs / max_occurs are enforced as usual"""
+    import copy
+    rng = ctx.rng
+    g = Gen(rng)
+    g.next_cid = 8000
+    done = 0
+    for i in range(200):
+        if done >= (40 if ctx.thorough else 14):
+            break
+        g.pool = []
+        sig = copy.deepcopy(g.fields(rng.choice([2, 3]), top=True))
+        objs = []
+
+        def collect(fs):
+            for f in fs:
+                if f['t']['k'] == 'obj':
+                    objs.append(f)
+                    collect(f['t']['fields'])
+                elif rng.random() < 0.5 and not f['many']:
+                    f['min'] = 1            # plenty of mandatory members
+        collect(sig)
+        keys = sti_keys(sig, '.')
+        if not objs or len(set(keys)) != len(keys) or len(set(cids(sig))) != len(cids(sig)):
+            continue
+        rng.choice(objs)['t']['nofreq'] = True
+        done += 1
+        for vi in range(4):
+            val = g.value(sig, 4, markers=False)
+            strict = rng.random() < 0.4
+            cfg = {'strict': strict, 'soft': True, 'delim': cps('.')}
+            qs = render_qs(rng, permute_pairs(rng, spell(rng, sig, val, '.')), 0)
+            if is_wsdl_qs(qs):
+                continue
+            r, st, body = get_impl(sig, cfg).get(qs)
+            ctx.cov['traces_validated_against_impl'] += 1
+            good = conforms_nf(sig, val)
+            ctx.hit('novalidate:%s:%s' % ('conformant' if good else 'nonconformant',
+                                          'differs-from-full-check' if good != conforms(sig, val) else 'same'))
+            if good != ('ok' in r) or (good and r != {'ok': val}):
+                ctx.hit('t3-fail:novalidate')
+                ctx.finding('soft:validate_freq', 'class with validate_freq=False: query %r is %s by the occurrence constraints that '
+                            'remain, got %s' % (qs[:200], 'allowed' if good else 'not allowed', core.canon(r)[:200]),
+                            {'op': 'verdict2', 'fields': sig, 'cfg': cfg, 'qs': qs, 'good': good, 'val': val})
 
 
 def t3_wsdl(ctx, add):
@@ -1774,6 +2206,48 @@ def replay(ctx, obj):
             return core.canon(ctx.model([q], driver='C03')[0])
         except Exception as e:
             return '(not available: %s)' % e
+    if op == 'bare':
+        r, st, body = Impl(obj['fields'], obj['cfg'], None, None, {'bare': True}).get(obj['qs'])
+        got = {'ok': r['ok']['o'][0][1]} if 'ok' in r and r['ok']['o'][0][1] is not None else r
+        exp = {'wsdl': True} if is_wsdl_qs(obj['qs']) else {'ok': obj['expected']}
+        print('query   :', obj['qs'], "(_body_style='bare')")
+        print('expected:', core.canon(exp)[:600])
+        print('impl    :', core.canon(got)[:600], st.get('status'))
+        return 0 if got == exp else 1
+    if op == 'in-header':
+        impl = Impl([fld('a', P('int'))], obj['cfg'], None, None, {'in_hdr': obj['hdr']})
+        r, st, body = impl.get('a=1', env_extra=obj['env'])
+        ih = impl.got.get('in_header')
+        got = None if ih is None else {'o': [[h['n'], impl.to_val(getattr(ih, py_of(h), None), False, h['t'])] for h in obj['hdr']]}
+        print('headers :', obj['env'])
+        print('expected:', core.canon(obj['expected'])[:600])
+        print('impl    :', core.canon(got)[:600], st.get('status'))
+        return 0 if ('ok' in r and got == obj['expected']) else 1
+    if op == 'return-style':
+        class _C:
+            pass
+        c = _C()
+        c.rng, c.thorough, c.cov, c.found = __import__('random').Random(obj.get('seed', 0)), True, {'traces_validated_against_impl': 0}, []
+        c.hit = lambda *a: None
+        c.finding = lambda fid, what, rep: c.found.append((fid, what)) if rep.get('style') == obj['style'] and rep.get('chunked') == obj['chunked'] else None
+        t3_return_styles(c, None)
+        for fid, what in c.found[:3]:
+            print(fid, ':', what[:400])
+        print('style %r, chunked=%s: %s' % (obj['style'], obj['chunked'], 'still wrong' if c.found else 'as expected'))
+        return 1 if c.found else 0
+    if op == 'conflict':
+        try:
+            Impl(obj['fields'], obj['cfg']).sti()
+            raised = None
+        except ValueError as e:
+            raised = str(e)
+        print('member table:', raised or 'built silently')
+        return 0 if raised and 'conflicts' in raised else 1
+    if op == 'verdict2':
+        r, st, body = Impl(obj['fields'], obj['cfg']).get(obj['qs'])
+        print('query   :', obj['qs'], '(validate_freq=False on one class; expected: %s)' % ('accepted' if obj['good'] else 'rejected'))
+        print('impl    :', core.canon(r)[:600], st.get('status'))
+        return 0 if (obj['good'] == ('ok' in r)) and (not obj['good'] or r == {'ok': obj['val']}) else 1
     if op == 'history':
         impl, sig, r0 = history_setup(obj)
         r, st, body = impl.get(obj['qs'])
@@ -1808,7 +2282,7 @@ def replay(ctx, obj):
         doc = []
         for k, v in raw.items():
             kind = leaf_kind(obj['fields'], k, delim)
-            if isinstance(v, list):
+            if isinstance(v, list) and impl.key_many(k):
                 if v:
                     doc.append([cps(k), [cps(impl.text_of(kind, x)) for x in v]])
             elif v == 'empty' and impl.is_complex_key(k):
